@@ -1,8 +1,8 @@
 #!/verif/.venv/bin/python
 # Replay of a solver counterexample against the unmodified code (no shims).
-# property=C17 kernel=results label=k4:results_values
+# property=C17 kernel=noise label=k1:roundtrip_field:runs
 import sys
 sys.path[:0] = ['/repo' + "/pulser-core", '/repo' + "/pulser-simulation", "/verif"]
 from symx.replay import replay
-sys.exit(replay(check='checks.c17', kernel='results', shape={'n_obs': 1, 'tags': ['expectation'], 'n_times': 2, 'kinds': ['complex']},
-                assignment={'total_duration': 1, 't0_0': '1/1024', 'v0_0': '0/1', 't0_1': '1/512', 'v0_1': '0/1'}, label='k4:results_values'))
+sys.exit(replay(check='checks.c17', kernel='noise', shape={'params': ['depolarizing_rate'], 'runs': True},
+                assignment={'depolarizing_rate': '1/2'}, label='k1:roundtrip_field:runs'))
